@@ -171,9 +171,9 @@ func tplByName(names ...string) []chainx.Tpl {
 }
 
 func tplNames(thorough bool) []string {
-	q := []string{"gas-transfer", "put-ext", "del-recreate", "write-fault", "ub-same", "destroy-ub", "deploy-uc", "vote1", "designate"}
+	q := []string{"gas-transfer", "put-ext", "del-recreate", "write-fault", "ub-same", "destroy-ub", "deploy-uc", "designate"}
 	if thorough {
-		q = append(q, "del-all-ua", "values", "exec-fee")
+		q = append(q, "vote1", "del-all-ua", "values", "exec-fee")
 	}
 	return q
 }
